@@ -65,6 +65,8 @@ def parseNetStep (st : String) : List Step :=
   else if op = 'P' then
     match rest.splitOn "." with
     | [k, cnt] => [.pipeline (k.toNat?.getD 0) (cnt.toNat?.getD 0)]
+    -- `P<k>.<n>.<l>`: l decode-level changes while the session is blocked in a write: observational
+    | [k, cnt, _l] => [.pipeline (k.toNat?.getD 0) (cnt.toNat?.getD 0)]
     | _ => []
   else if op = 'B' then (rest.splitOn "/").filterMap fun k => k.toNat?.map Step.close
   else if op = 'W' then
